@@ -39,7 +39,7 @@ func PlayJunk(scn M, rng *rand.Rand) ([]M, error) {
 			wedged = true
 		}
 		runtime.ReadMemStats(&after)
-		x.Log.Append(mem.Ev{"k": "x-alloc", "conn": conn.ID, "bytes": int(after.TotalAlloc - before.TotalAlloc), "sent": len(b), "limit": L})
+		x.Log.Append(mem.Ev{"k": "x-alloc", "conn": conn.ID, "bytes": capInt(after.TotalAlloc - before.TotalAlloc), "sent": len(b), "limit": L})
 	}
 	started := false
 	start := func() {
@@ -247,4 +247,13 @@ func helperFuzz(rng *rand.Rand) []M {
 	}
 	out = append(out, M{"k": "end"})
 	return out
+}
+
+// capInt keeps a measured quantity within what TLC's 32-bit integers hold
+// (a larger value would wrap around and pass every bound).
+func capInt(v uint64) int {
+	if v > 2000000000 {
+		return 2000000000
+	}
+	return int(v)
 }
